@@ -86,3 +86,22 @@ Theorem C25_nonvacuous : wf_msg good_msg /\ Forall rdata_guard (all_rrs good_msg
   /\ exists b, packed good_msg = Ok b /\ DnsMessage.unpack b = Ok good_msg /\ length b = 98.
 Proof. exact good_msg_ok. Qed.
 Print Assumptions C25_nonvacuous.
+
+(* pack has no memory: in any history of pack calls the result for a name is pack of that name,
+   whatever was packed before (in particular another spelling of the same name), and a whole
+   history of well-formed names round-trips name by name. *)
+Theorem C25_pack_history_independent : forall (h : list name) (n : name),
+  nth (length h) (pack_history (h ++ [n])) (Err EOther) = pack n.
+Proof. exact pack_history_independent. Qed.
+Print Assumptions C25_pack_history_independent.
+
+Theorem C25_pack_history_roundtrip : forall names : list name, Forall wf_name names ->
+  Forall2 (fun n r => r = Ok (wire_name n) /\ DnsNames.unpack (wire_name n) = Ok n) names (pack_history names).
+Proof. exact pack_history_roundtrip. Qed.
+Print Assumptions C25_pack_history_roundtrip.
+
+Theorem C25_case_variants_nonvacuous :
+  pack_history [[x77;x57;x77;x2e;x61]; [x77;x77;x77;x2e;x61]; [x57;x57;x57;x2e;x41]]
+  = [Ok [x03;x77;x57;x77;x01;x61;x00]; Ok [x03;x77;x77;x77;x01;x61;x00]; Ok [x03;x57;x57;x57;x01;x41;x00]].
+Proof. exact case_variants_example. Qed.
+Print Assumptions C25_case_variants_nonvacuous.
